@@ -282,13 +282,17 @@ func (pc *propConfig) run(prop string, g *G, idx funcIndex, cs *contractSet, out
 		}
 	}
 	// evidence
-	var tb, as []string
+	tb, as := []string{}, []string{}
 	for t := range trusted {
 		tb = append(tb, t)
 	}
 	for t := range assumes {
 		as = append(as, t)
 	}
+	as = append(as, "A-SLICE: slices and strings are shorter than 2^40 elements; len/cap non-negative; references read from the heap point to allocated objects",
+		"A-SSA: go/ssa (x/tools v0.29.0) lowers the source faithfully and govc encodes each SSA instruction faithfully (bit-vector integers, Go slice/map/interface semantics)",
+		"A-SMT: unsat answers of z3 5.1.0 / z3 4.8.12 / cvc5 1.0.3 are sound",
+		"A-INDUCTION: lifting per-call contracts to histories (DESIGN.md 4.1) is argued on paper")
 	sort.Strings(tb)
 	sort.Strings(as)
 	tb = append(tb, "golang.org/x/tools/go/ssa v0.29.0 lowering (A-SSA)", "govc SSA->SMT encoding (A-SSA)", "z3 5.1.0 / z3 4.8.12 / cvc5 1.0.3 unsat answers (A-SMT)")
